@@ -802,12 +802,76 @@ func (x *Exec) assign(s *State, fr *Frame, n *ast.AssignStmt) {
 	x.afterAssign(s, fr, n)
 }
 
+// ghostsTouched lists the ghost variables that a directive may update at a call
+// or assignment site lying inside the given pieces of code (a loop body).
+func (x *Exec) ghostsTouched(c *Contract, nodes []ast.Node) map[string]bool {
+	out := map[string]bool{}
+	inside := func(p token.Pos) bool {
+		for _, nd := range nodes {
+			if nd != nil && nd.Pos() <= p && p <= nd.End() {
+				return true
+			}
+		}
+		return false
+	}
+	for _, oc := range c.OnCall {
+		for _, site := range x.w.callSites(c, oc.Dir) {
+			if inside(site.Pos()) {
+				out[oc.Dir.Name] = true
+			}
+		}
+	}
+	// a closure defined elsewhere in the function and called from here may contain
+	// directive sites: then every ghost variable may change
+	info := c.Pkg.TypesInfo
+	for _, nd := range nodes {
+		if nd == nil {
+			continue
+		}
+		ast.Inspect(nd, func(n ast.Node) bool {
+			ce, ok := n.(*ast.CallExpr)
+			if !ok {
+				return true
+			}
+			if id, ok := ast.Unparen(ce.Fun).(*ast.Ident); ok {
+				if v, ok := info.Uses[id].(*types.Var); ok {
+					if _, isSig := v.Type().Underlying().(*types.Signature); isSig && v.Pkg() != nil && v.Parent() != v.Pkg().Scope() {
+						for _, g := range c.Ghost {
+							out[g.Name] = true
+						}
+					}
+				}
+			}
+			return true
+		})
+	}
+	for _, oa := range c.OnAssign {
+		for _, nd := range nodes {
+			if nd == nil {
+				continue
+			}
+			ast.Inspect(nd, func(n ast.Node) bool {
+				if as, ok := n.(*ast.AssignStmt); ok {
+					for _, l := range as.Lhs {
+						if exprText(x.w.Fset, l) == oa.Dir.CallText {
+							out[oa.Dir.Name] = true
+						}
+					}
+				}
+				return true
+			})
+		}
+	}
+	return out
+}
+
 // afterAssign applies the "on assign" ghost directives of the enclosing contract.
 func (x *Exec) afterAssign(s *State, fr *Frame, n *ast.AssignStmt) {
-	if fr.contract == nil || x.spec > 0 || len(fr.contract.OnAssign) == 0 {
+	cf := x.contractFrame(fr)
+	if cf == nil || x.spec > 0 || len(cf.contract.OnAssign) == 0 {
 		return
 	}
-	c := fr.contract
+	c := cf.contract
 	for _, l := range n.Lhs {
 		text := exprText(x.w.Fset, l)
 		for _, oa := range c.OnAssign {
@@ -1407,8 +1471,11 @@ func (x *Exec) loop(s *State, fr *Frame, node ast.Stmt, label string, condFn fun
 		if cc == nil {
 			cc = fr.contract
 		}
+		touched := x.ghostsTouched(cc, wsNodes)
 		for _, g := range cc.Ghost {
-			ws.vars[g.Var] = true
+			if touched[g.Name] {
+				ws.vars[g.Var] = true
+			}
 		}
 	}
 	h := s.fork()
@@ -2016,6 +2083,16 @@ func (x *Exec) staticCallee(info *types.Info, call *ast.CallExpr) *types.Func {
 func (x *Exec) havocStmt(s *State, fr *Frame, st ast.Stmt) *State {
 	ws := &writeSet{vars: map[types.Object]bool{}, mems: map[string]bool{}}
 	x.scanWrites(fr.info, st, ws, map[*types.Func]bool{}, 0)
+	// ghost variables whose directives have a site inside the statement: their updates
+	// are not executed, so their values become unknown
+	if cf := x.contractFrame(fr); cf != nil {
+		touched := x.ghostsTouched(cf.contract, []ast.Node{st})
+		for _, g := range cf.contract.Ghost {
+			if touched[g.Name] {
+				ws.vars[g.Var] = true
+			}
+		}
+	}
 	for o := range ws.vars {
 		if cur, ok := s.vars[o]; ok {
 			if _, isHeap := cur.(*heapVar); isHeap {
